@@ -118,6 +118,8 @@ struct XParse : Engine {
                 }
                 emit(s);
             }
+            // literals that overflow / underflow in strtod (they set errno = ERANGE; nothing may depend on that later)
+            for (const char* v : { "1e999", "-1e999", "[1e400]", "1e-999", "[2.5e-310]", "{\"n\":4.9406564584124654e-324}", "123456789e300", "0.1e-320" }) { emit(v); emit(std::string(v) + " "); emit("[1,2.5,\"after\"]"); }
             // BOM followed by 0..2 alphabet bytes, doubled BOM, BOM inside
             const std::string bom = "\xEF\xBB\xBF"; const int A = sizeof SIGMA_B;
             emit(bom); emit(bom + bom + "1"); emit("1" + bom); emit(" " + bom + "1"); emit(bom + "\"" + bom + "\""); emit(bom.substr(0, 1)); emit(bom.substr(0, 2));
@@ -293,7 +295,7 @@ struct XParse : Engine {
             // --- decode (C02)
             if (S_ok && (!req || has_nul)) {
                 ctr().compared++;
-                if (!r.ok) V("decode", "valid-text-rejected", std::string(lb) + ": valid JSON text rejected (expected value " + rv_text(sv).substr(0, 200) + ")");
+                if (!r.ok) { V("decode", "valid-text-rejected", std::string(lb) + ": valid JSON text rejected (expected value " + rv_text(sv).substr(0, 200) + ")"); if (req) V("endptr", "terminated-valid-text-rejected", std::string(lb) + ": a valid text followed only by whitespace and a zero byte was rejected although termination is satisfied"); }
                 else { std::string why; if (!match_rv(r.t, sv, why)) V("decode", "wrong-value", std::string(lb) + ": decoded tree differs from the denoted value: " + why); }
             }
             // --- reject (C03)
